@@ -8,7 +8,58 @@ import common
 from common import err_code
 
 PROP = 14
-SUBTYPES = {0: None, 1: "Trans-AT-KS", 2: "Iterative-KS", 3: "Modular-KS"}
+# codes of the subtype profile names (Model.v: 1 Trans-AT-KS, 2 Iterative-KS, every other name its own code):
+# the five profiles of data/ksdomains.hmm, then transATor clade names as find_subtypes("Trans-AT-KS", ...) attaches
+# them below a Trans-AT-KS hit
+SUBNAMES = {1: "Trans-AT-KS", 2: "Iterative-KS", 3: "Modular-KS", 4: "Hybrid-KS", 5: "Enediyne-KS",
+            6: "Clade_12", 7: "Clade_3", 8: "Clade_45"}
+SUBCODES = {name: code for code, name in SUBNAMES.items()}
+
+# named layouts of HMMResult.internal_hits: a forest of (code, children).  find_subtypes("PKS_KS", ksdomains.hmm)
+# attaches EVERY subtype hit that overlaps the KS (none, one, several - equal or different profiles, in the order of
+# the refined hmmscan output), find_subtypes("Trans-AT-KS", transATor.hmm) attaches clade hits below each
+# Trans-AT-KS hit; deeper nesting is what HMMResult itself allows
+SHAPES = {
+    0: [], 1: [(1, [])], 2: [(2, [])], 3: [(3, [])], 4: [(4, [])], 5: [(5, [])],
+    "t+m": [(1, []), (3, [])], "m+t": [(3, []), (1, [])], "t+t": [(1, []), (1, [])], "m+m": [(3, []), (3, [])],
+    "m+h": [(3, []), (4, [])], "t+i": [(1, []), (2, [])], "i+t": [(2, []), (1, [])], "i+m": [(2, []), (3, [])],
+    "i+i": [(2, []), (2, [])], "t+m+h": [(1, []), (3, []), (4, [])], "m+h+t": [(3, []), (4, []), (1, [])],
+    "m+t+i": [(3, []), (1, []), (2, [])], "t>c": [(1, [(6, [])])], "t>cc": [(1, [(6, []), (7, [])])],
+    "t>c>c": [(1, [(6, [(8, [])])])], "t>c+m": [(1, [(6, [])]), (3, [])], "m+t>c": [(3, []), (1, [(7, [])])],
+    "t>c+t>c": [(1, [(6, [])]), (1, [(7, [])])], "m>t": [(3, [(1, [])])], "m>i": [(3, [(2, [])])],
+    "i>t": [(2, [(1, [])])], "h>tt": [(4, [(1, []), (1, [])])], "t>t": [(1, [(1, [])])],
+}
+UNAMBIGUOUS = [1, 1, 1, 2, 3, 4, 5, "t>c", "t>c", "t>cc", "t>c>c", "m>t", "m>i", "i>t", "h>tt", "t>t"]
+AMBIGUOUS = ["t+m", "t+m", "m+t", "t+t", "m+m", "m+h", "t+i", "i+t", "i+m", "i+i", "t+m+h", "m+h+t", "m+t+i",
+             "t>c+m", "m+t>c", "t>c+t>c"]
+
+
+def hits_of(sub):
+    """ the hit forest of a spec: a shape name / legacy code, or the forest itself """
+    if isinstance(sub, (list, tuple)):
+        return [(code, hits_of(children)) for code, children in sub]
+    return SHAPES[sub]
+
+
+def enc_hits(hits):
+    out = [len(hits)]
+    for code, children in hits:
+        out += [code] + enc_hits(children)
+    return out
+
+
+def names_of(hits):
+    """ readable form of a hit forest """
+    return [SUBNAMES[code] if not children else {SUBNAMES[code]: names_of(children)} for code, children in hits]
+
+
+def detailed_tail(hits):
+    """ independent reading of HMMResult.detailed_names[1:] (used for statistics only) """
+    out = []
+    while len(hits) == 1:
+        out.append(hits[0][0])
+        hits = hits[0][1]
+    return out
 
 
 def label_table():
@@ -24,14 +75,31 @@ def double_cases():
     return sorted(tuple(case) for case in mi.DOUBLE_TRANSPORTER_CASES)
 
 
+def make_hits(hits, lo, hi):
+    """ HMMResults for a hit forest inside the parent span [lo, hi): every hit overlaps its parent
+        (HMMResult.add_internal_hits insists on that), siblings differ in their coordinates """
+    from antismash.common.hmmscan_refinement import HMMResult
+    out = []
+    for k, (code, children) in enumerate(hits):
+        start = lo + min(k, max(0, hi - lo - 1))
+        end = max(start + 1, hi - (k % 2))
+        hit = HMMResult(SUBNAMES[code], start, end, 1e-10 / (k + 1), 50. + k)
+        if children:
+            hit.add_internal_hits(make_hits(children, start, end))
+        out.append(hit)
+    return out
+
+
 def make_domain(labels, spec):
-    """ spec = (label index, subtype code, id, query_start) """
+    """ spec = (label index, subtype hits (shape name or forest), id, query_start) """
     from antismash.common.hmmscan_refinement import HMMResult
     lab, sub, _cid, start = spec
-    internal = None
-    if SUBTYPES[sub]:
-        internal = [HMMResult(SUBTYPES[sub], start, start + 10, 1e-10, 50.)]
-    return HMMResult(labels[lab], start, start + 10, 1e-20, 100., internal_hits=internal)
+    domain = HMMResult(labels[lab], start, start + 10, 1e-20, 100.)
+    hits = hits_of(sub)
+    if hits:
+        # as find_subtypes does: the hits are attached to the existing domain hit
+        domain.add_internal_hits(make_hits(hits, start, start + 10))
+    return domain
 
 
 class Ids:
@@ -62,7 +130,17 @@ def enc_module(module, cid_of):
     out += [int(module._first_in_cds), int(module.is_complete()), int(module.is_trans_at()), int(module.is_pks()),
             int(module.is_nrps()), int(module.is_starter_module()), int(module.is_termination_module()),
             int(module.is_iterative())]
+    # the two views every component gives of its subtype: Component.subtype and Component.subtypes
+    out.append(len(module._components))
+    for comp in module._components:
+        out += [sub_code(comp.subtype), len(comp.subtypes)]
     return out
+
+
+def sub_code(name):
+    if name is None:
+        return 0
+    return SUBCODES.get(name, 99)
 
 
 def enc_modules(modules, cid_of):
@@ -182,15 +260,35 @@ def impl_fn4(mi, specs, labels):
 SPEC_OFFSET = 10     # run_C14 fn 11/12/13: the decidable specification on (payload ++ implementation output)
 
 
+def parse_hits(flat, pos):
+    n = flat[pos]
+    pos += 1
+    hits = []
+    for _ in range(n):
+        code = flat[pos]
+        children, pos = parse_hits(flat, pos + 1)
+        hits.append((code, children))
+    return hits, pos
+
+
+def parse_specs(flat, pos):
+    """ one encoded domain list -> [(label index, hit forest, id, query_start)], next position """
+    n = flat[pos]
+    pos += 1
+    specs = []
+    for _ in range(n):
+        lab, cid, start = flat[pos:pos + 3]
+        hits, pos = parse_hits(flat, pos + 3)
+        specs.append((lab, hits, cid, start))
+    return specs, pos
+
+
 def decode_domains(flat, labels):
-    """ readable form of the domain lists inside a flat case """
+    """ readable form of the domain lists inside a flat case: (label, subtype hits, query_start) """
     out, pos = [], 2
     for _ in range(2 if flat[1] % SPEC_OFFSET == 3 else 1):
-        n = flat[pos]
-        pos += 1
-        out.append([(labels[flat[pos + 4 * i]], SUBTYPES.get(flat[pos + 4 * i + 1]), flat[pos + 4 * i + 3])
-                    for i in range(n)])
-        pos += 4 * n
+        specs, pos = parse_specs(flat, pos)
+        out.append([(labels[lab], names_of(hits) or None, start) for lab, hits, _cid, start in specs])
     return out
 
 
@@ -211,7 +309,10 @@ CLAUSES = ["module is not empty", "no docking (ignored) domain inside a module",
            "starter slot = first starter", "loader slot = the loader",
            "carrier protein slot = first carrier protein", "end slot = the terminating domain",
            "modifications list = the modification domains", "others list = the remaining domains",
-           "reported flags are those of the reported slots", "is_complete / is_trans_at follow their definition"]
+           "reported flags are those of the reported slots", "is_complete / is_trans_at follow their definition "
+           "(trans-AT: PKS, starter, no loader, starter an UNAMBIGUOUS Trans-AT-KS or a Trans-AT docking domain present)",
+           "is_iterative / Component.subtype: the subtype is the name of the ONLY first-level subtype hit of the domain "
+           "(none if there is no hit or there are several)"]
 
 
 def diagnose(case, out, labels):
@@ -231,8 +332,11 @@ def diagnose(case, out, labels):
         for _ in range(res[2]):
             pos = skip_module(out, pos)
         ncomp = out[pos]
-        by_id = {case[3 + 4 * k + 2]: labels[case[3 + 4 * k]] for k in range(case[2])}
+        specs = parse_specs(case, 2)[0]
+        by_id = {cid: labels[lab] for lab, _hits, cid, _start in specs}
+        hits_by_id = {cid: names_of(hits) for lab, hits, cid, _start in specs}
         found["module"] = [by_id.get(cid, "?") for cid in out[pos + 1:pos + 1 + ncomp]]
+        found["module_subtype_hits"] = [hits_by_id.get(cid) or None for cid in out[pos + 1:pos + 1 + ncomp]]
     return found
 
 
@@ -241,7 +345,8 @@ def skip_module(out, pos):
     pos += 4                     # slots
     for _ in range(2):           # modifications, others
         pos += 1 + out[pos]
-    return pos + 8               # first_in_cds + seven flags
+    pos += 8                     # first_in_cds + seven flags
+    return pos + 1 + 2 * out[pos]   # subtype code and number of subtypes per component
 
 
 STAGES = {1: "build_modules_for_cds on the hits as supplied", 2: "Module.from_json(module.to_json())",
@@ -321,8 +426,8 @@ def spec_pass(chk, cases, impl_outs, model_outs, describe):
 
 def enc_specs(specs):
     out = [len(specs)]
-    for spec in specs:
-        out += list(spec)
+    for lab, sub, cid, start in specs:
+        out += [lab, cid, start] + enc_hits(hits_of(sub))
     return out
 
 
@@ -340,6 +445,29 @@ class Gen:
                                                "Beta_elim_lyase", "Trans-AT_docking", "CAL_domain", "PP-binding",
                                                "Condensation_Starter", "TD", "nMT", "NRPS-COM_Nterm", "TIGR01720")]
 
+    def forest(self, depth=1):
+        """ an arbitrary hit forest: 1-3 hits per level, any names, up to three levels """
+        rng = self.rng
+        hits = []
+        for _ in range(rng.choice([1, 1, 2, 2, 3])):
+            code = rng.choice([1, 1, 2, 3, 4]) if depth == 1 else rng.choice([1, 6, 6, 7, 8])
+            children = self.forest(depth + 1) if depth < 3 and rng.random() < 0.3 else []
+            hits.append((code, children))
+        return hits
+
+    def ks_shape(self):
+        """ subtype hits of a KS as find_subtypes can leave them: none, exactly one (with or without nested
+            transATor hits), several at the first level (Trans-AT-KS first / later / absent / repeated) """
+        rng = self.rng
+        r = rng.random()
+        if r < 0.20:
+            return 0
+        if r < 0.62:
+            return rng.choice(UNAMBIGUOUS)
+        if r < 0.94:
+            return rng.choice(AMBIGUOUS)
+        return self.forest()
+
     def label(self):
         r = self.rng.random()
         if r < 0.55:
@@ -356,10 +484,8 @@ class Gen:
         for i in range(n):
             lab = self.label()
             sub = 0
-            if lab == self.ks:
-                sub = rng.choice([0, 1, 1, 2, 3])
-            elif rng.random() < 0.03:
-                sub = rng.choice([1, 2, 3])
+            if lab == self.ks or rng.random() < 0.03:
+                sub = self.ks_shape()
             # mostly increasing starts, occasionally ties or out of order (the function sorts, stably)
             r = rng.random()
             if r < 0.9:
@@ -384,6 +510,7 @@ class Gen:
             ["PKS_KS", "Trans-AT_docking", "ACP"], ["CAL_domain", "ACP"], ["PKS_AT", "ACP", "PKS_KS", "PKS_AT"],
             ["Condensation_Starter", "AMP-binding", "nMT", "PCP", "Thioesterase", "PKS_KR"],
             ["ACP", "PKS_KR"], ["PCP", "Epimerization", "Condensation_LCL"], ["Condensation_LCL"], ["PKS_KS", "PKS_AT"],
+            ["PKS_KS", "ACP", "PKS_KR"], ["PKS_KS", "ACP"], ["PKS_KS", "PKS_DH", "ACP", "PKS_KR", "PKS_KS", "ACP"],
             ["ACP", "ACP", "LPG_synthase_C", "Beta_elim_lyase"], ["ACP", "LPG_synthase_C", "Beta_elim_lyase"],
             ["PKS_KS", "PKS_AT", "ACP", "ACP", "LPG_synthase_C", "Beta_elim_lyase", "Thioesterase"],
             ["PKS_KS", "ACP", "ACP", "LPG_synthase_C", "NRPS-COM_Nterm", "Beta_elim_lyase"],
@@ -397,10 +524,34 @@ class Gen:
         start = 0
         for i, name in enumerate(pieces):
             start += rng.randint(1, 30)
-            sub = rng.choice([0, 1, 1, 2]) if name == "PKS_KS" else 0
+            sub = self.ks_shape() if name == "PKS_KS" else 0
             specs.append((ix[name], sub, first_id + i, start))
         return specs
 
+
+    # ---------------- one module split over two adjacent genes (combine_modules)
+    SPLIT_LINES = [["PKS_KS", "ACP", "PKS_KR"], ["PKS_KS", "PKS_DH", "ACP", "PKS_KR"], ["PKS_KS", "PKS_DH", "PKS_KR", "ACP"],
+                   ["PKS_KS", "PKS_AT", "PKS_KR", "ACP"], ["PKS_KS", "PKS_AT", "ACP", "Thioesterase"],
+                   ["PKS_KS", "Trans-AT_docking", "ACP", "PKS_KR"], ["Trans-AT_docking", "PKS_KS", "ACP"],
+                   ["Condensation_LCL", "AMP-binding", "PCP", "Epimerization"], ["Condensation_LCL", "AMP-binding", "nMT", "PCP"],
+                   ["AMP-binding", "PCP", "Thioesterase"], ["CAL_domain", "ACP", "PKS_KR"], ["PKS_KS", "ACP", "Thioesterase", "PKS_KR"],
+                   ["PKS_KS", "ACP", "ACP", "LPG_synthase_C", "Beta_elim_lyase"], ["PKS_KS", "PKS_KS", "ACP", "PKS_KR"],
+                   ["PKS_KS", "ACP", "PKS_KR", "PKS_KR"], ["Condensation_Starter", "AMP-binding", "PCP"],
+                   ["PKS_KS", "AMP-binding", "PCP"], ["Condensation_LCL", "PKS_AT", "ACP"], ["PKS_KS", "ACP", "PKS_KS", "ACP", "PKS_KR"]]
+    SPLIT_BEFORE = [[], [], ["PKS_AT", "ACP"], ["PKS_KS", "PKS_AT", "ACP"], ["AMP-binding", "PCP"], ["NRPS-COM_Nterm"], ["PKS_KR"]]
+    SPLIT_AFTER = [[], [], ["PKS_KS", "PKS_AT", "ACP"], ["PKS_KR"], ["Thioesterase"], ["Condensation_LCL", "AMP-binding", "PCP"],
+                   ["PKS_KS", "ACP"], ["PKS_Docking_Cterm"]]
+
+    def split_pair(self):
+        """ an assembly line cut somewhere inside a module: [complete part] head | tail [more domains] """
+        rng = self.rng
+        line = rng.choice(self.SPLIT_LINES)
+        cut = rng.randint(1, len(line) - 1) if rng.random() < 0.9 else rng.randint(0, len(line))
+        prev = self.place(rng.choice(self.SPLIT_BEFORE) + line[:cut], 0)
+        cur = self.place(line[cut:] + rng.choice(self.SPLIT_AFTER), len(prev))
+        if rng.random() < 0.2:
+            prev, cur = self.supply(prev), self.supply(cur)
+        return prev, cur
 
     # ---------------- supply order of the hits (build_modules_for_cds orders them by query_start itself)
     SUPPLY_MODES = ["position", "shuffle", "shuffle", "shuffle", "reverse", "by_label", "rotate", "swap"]
@@ -438,7 +589,7 @@ class Gen:
             if name not in self.index:      # a label the source under test no longer knows
                 continue
             if sub is None:
-                sub = rng.choice([0, 1, 1, 2, 3]) if name == "PKS_KS" else 0
+                sub = self.ks_shape() if name == "PKS_KS" else 0
             if not (ties and i and rng.random() < 0.35):
                 start += rng.randint(1, 30)
             specs.append((self.index[name], sub, first_id + i, start))
@@ -449,11 +600,12 @@ class Gen:
                 ["AMP-binding"], ["Condensation_Starter", "AMP-binding", "nMT"], ["CAL_domain"],
                 [("PKS_KS", 1), "PKS_DH", "PKS_KR"], ["Condensation_LCL"], [("PKS_KS", 3), "Trans-AT_docking"],
                 [("PKS_KS", 2), "PKS_AT", "ACP", ("PKS_KS", 1)], ["Heterocyclization", "A-OX", "cMT"], ["PKS_KR"],
-                ["Thioesterase"], ["NRPS-COM_Nterm", "Condensation_DCL", "AMP-binding"]]
+                ["Thioesterase"], ["NRPS-COM_Nterm", "Condensation_DCL", "AMP-binding"],
+                [("PKS_KS", "t+m")], [("PKS_KS", "m+t"), "Trans-AT_docking"], [("PKS_KS", "t>c")], [("PKS_KS", "t>c+m"), "PKS_DH"]]
     SUFFIXES = [[], ["PKS_KR"], ["Thioesterase"], ["PKS_KR", "Thioesterase"], ["Thioesterase", "Thioesterase"], ["ACP"],
                 ["PKS_KR", "PKS_KR"], [("PKS_KS", 1), "PKS_AT", "ACP"], ["Epimerization"], ["TD", "PKS_KR"],
                 ["Condensation_LCL", "AMP-binding", "PCP"], ["Trans-AT_docking", "PKS_KR"], ["TIGR01720", "PKS_DH"],
-                ["PKS_Docking_Cterm"], ["nMT", "PCP", "Epimerization"]]
+                ["PKS_Docking_Cterm"], ["nMT", "PCP", "Epimerization"], [("PKS_KS", "t+m"), "ACP", "PKS_KR"]]
     CORE_CPS = [("ACP", "ACP"), ("PCP", "PCP"), ("ACP", "PCP"), ("PP-binding", "PKS_PP")]
     INTERLOPERS = ["NRPS-COM_Nterm", "TIGR01720", "cMT", "ACPS", "PKS_KR", "Trans-AT_docking", "PCP", "Thioesterase"]
 
@@ -543,13 +695,13 @@ class Gen:
 
 
 RULE = ("every implementation output is also judged by the decidable specification of Model.v (spec_fn1/2/3/4); "
-        "random domain sequences over all labels of the generated class tables (weighted to assembly-line labels, KS subtypes), "
+        "random domain sequences over all labels of the generated class tables (weighted to assembly-line labels); every KS (and 3 % of the other domains) carries subtype hits as find_subtypes can leave them: none, exactly one (plain or with nested transATor hits, up to three levels), several at the first level (Trans-AT-KS first / later / absent, equal and different names), random forests; "
         "hit lists supplied in position order AND shuffled / reversed / grouped by profile / rotated, with pairwise different and "
         "with tied query_start; tandem carrier proteins: [module context] CP CP [every word over the members of each "
         "DOUBLE_TRANSPORTER_CASES entry up to one longer than the entry, the entry twice, with a foreign domain at every place] "
         "[further domains] for all carrier protein labels; permutation families (all supply orders of up to four hits); single "
         "genes (build, build+reload, build+reload+build in position order) and adjacent gene pairs (combine_modules, both strand "
-        "relations); non-trivial = at least two modules or a merge attempt with non-empty genes; distinct by flat encoding")
+        "relations; 30 % of them one assembly-line module cut in two at a random place); non-trivial = at least two modules or a merge attempt with non-empty genes; distinct by flat encoding")
 FN_NAMES = {1: "build_modules_for_cds", 2: "build+from_json(to_json)", 3: "combine_modules",
             4: "build(as supplied)+reload+build(position order)"}
 
@@ -583,6 +735,15 @@ def run(chk):
                    [(ix[name], 0, 1 + k, 10 * (k + 1)) for k, name in enumerate(WITNESS[1:])], True)),
               # the F52 witness with the hits supplied in reverse order
               (4, ([(ix[name], 0, k, 10 * (k + 1)) for k, name in enumerate(WITNESS)][::-1],))]
+    # an AMBIGUOUS subtype call (several subtype hits inside one KS hit) is no subtype: KS, ACP, KR with the KS
+    # carrying Trans-AT-KS + Modular-KS in either order / twice Trans-AT-KS, in one gene and split over two genes;
+    # and the unambiguous controls (plain, with nested transATor clade hits)
+    for shape in ("t+m", "m+t", "t+t", "t>c+m", 1, "t>c", "t>cc", "m>t", "i+t", "i>t"):
+        trio = [(ix["PKS_KS"], shape, 0, 10), (ix["ACP"], 0, 1, 30), (ix["PKS_KR"], 0, 2, 50)]
+        corpus.append((4, (trio,)))
+        corpus.append((3, (trio[:1], [(ix["ACP"], 0, 1, 10), (ix["PKS_KR"], 0, 2, 30)], True)))
+        corpus.append((3, ([(ix["PKS_AT"], 0, 3, 5), (ix["ACP"], 0, 4, 8)] + trio[:1],
+                           [(ix["PKS_KS"], 4, 5, 2)] + trio[1:], True)))
     # every arrangement of the pair members behind two carrier proteins, in every module context
     queue = list(corpus) + [(4, (specs,)) for specs in gen.tandem_core(thorough)]
     chk.extra["tandem_core_cases"] = len(queue) - len(corpus)
@@ -591,6 +752,7 @@ def run(chk):
     queue.reverse()     # consumed from the end
     orders = {"position_order": 0, "other_order": 0, "tied_positions": 0}
     tandem_seen = 0
+    sub_kinds = {}
     for i in range(total):
         r = chk.rng.random()
         if queue:
@@ -615,8 +777,12 @@ def run(chk):
                 if q < 0.6:
                     return gen.tandem(first)
                 return gen.sequence(first, 6)
-            prev = mk(0)
-            cur = mk(len(prev))
+            if chk.rng.random() < 0.3:
+                prev, cur = gen.split_pair()
+                chk.count("combine_split_module_pairs")
+            else:
+                prev = mk(0)
+                cur = mk(len(prev))
             if chk.rng.random() < 0.3:
                 cur = cur + [(s[0], s[1], len(prev) + len(cur) + j, max(c[3] for c in cur) + 20 * (j + 1) if cur else 5)
                              for j, s in enumerate(gen.module_like(0))]
@@ -634,6 +800,19 @@ def run(chk):
             orders["position_order" if starts == sorted(starts) else "other_order"] += 1
             if len(set(starts)) < len(starts):
                 orders["tied_positions"] += 1
+            for spec in specs:
+                hits = hits_of(spec[1])
+                if spec[0] == gen.ks or hits:
+                    first = [code for code, _children in hits]
+                    kind = ("no_subtype_hit" if not hits else
+                            "one_first_level_hit" + ("_nested" if hits[0][1] else "") if len(hits) == 1 else
+                            "several_first_level_hits_" + ("trans_at_ks_first" if first[0] == 1 else
+                                                           "trans_at_ks_later" if 1 in first else "no_trans_at_ks"))
+                    sub_kinds[kind] = sub_kinds.get(kind, 0) + 1
+                    if len(hits) > 1 and len(set(first)) == 1:
+                        sub_kinds["several_first_level_hits_equal_names"] = sub_kinds.get("several_first_level_hits_equal_names", 0) + 1
+                    if len(detailed_tail(hits)) > 1:
+                        sub_kinds["subtypes_longer_than_one"] = sub_kinds.get("subtypes_longer_than_one", 0) + 1
             names = [labels[s[0]] for s in sorted(specs, key=lambda s: s[3])]
             if any(a in gen.carriers and b in gen.carriers for a, b in zip(names, names[1:])):
                 tandem_seen += 1
@@ -642,11 +821,12 @@ def run(chk):
             chk.count("combine_merged")
         if out[0] == 1:
             chk.count("error_" + common.ERR_NAME.get(out[1], str(out[1])))
-        chk.note_case(flat, nontrivial, {"function": fn, "domains": [[(labels[s[0]], SUBTYPES[s[1]], s[3]) for s in a]
-                                                                    for a in args if isinstance(a, list)],
+        chk.note_case(flat, nontrivial, {"function": fn, "domains": [[(labels[s[0]], names_of(hits_of(s[1])) or None, s[3])
+                                                                     for s in a] for a in args if isinstance(a, list)],
                                          "implementation": out})
     chk.extra["hit_lists_by_supply_order"] = orders
     chk.extra["hit_lists_with_adjacent_carrier_proteins"] = tandem_seen
+    chk.extra["domains_by_subtype_hit_layout"] = sub_kinds
     t2 = time.time()
     def describe(flat):
         return {"function": flat[1], "payload": flat[2:], "domains": decode_domains(flat, labels)}
